@@ -62,8 +62,9 @@ CLAIMS = {
                 "active master entry in master order, every result object carrying the master's header and attribute list, non-multiple definitions once (deprecated ones only when a "
                 "source differs), scopes recursively, multiple entries as template (exact is_template rule) followed by instances, nothing undeclared (C04_shape needs no well-formedness "
                 "hypothesis: ill-formed masters end in an error); disabled source objects are ignored entirely and the result depends on $-free sources only through their stripped view "
-                "(splitting/positions/contexts immaterial); a disabled master object never influences the result. PARTIAL for sources with $variables in the disabled clause (rests on the "
-                "F10 repair; compared on every run).",
+                "(splitting/positions/contexts immaterial); a disabled master object never influences the result. With $variables the disabled-sources clause holds for every PARSED source "
+                "(C04_disabled_sources_ignored_any: lookup and resolution skip disabled objects; the ordering hypothesis on ids is proved of parser output and shown necessary by a hand-built "
+                "counterexample; 15 theorems).",
         "note": "Trusted: Coq kernel, extraction, driver, harness, hand-written model of scope.fetch / definition.fetch* (Fetch.v) on top of Vars.v and Choice.v; the canonical rendering "
                 "extract_format().as_str() is an oracle table recorded from the implementation; alias masters, custom converters, skip_incompatible_objects=True unmodelled.",
     },
